@@ -144,3 +144,58 @@ def build(run):
     run.crates += [crate3, crate4]
     run._kani_result(crate3, lem, res[0])
     run._kani_result(crate4, l4, res[1])
+
+    # ---- K-C08-f: a failing set_mathml leaves the previously set expression installed (recoverability) ---------------------------
+    sm = itf.find("fn set_mathml")
+    clos = itf.find_expr("| old_package |", within=sm)
+    start = itf.find_stmt("let new_package = parser :: parse", within=clos)
+    tail = itf.src[start.start:clos.end - 1]      # from the parse statement to the end of the closure body
+    run.uses(_span(itf, start.start, clos.end - 1, "interface.rs::fn set_mathml::closure tail (parse .. return)"))
+    crate5 = kani_run.Crate("c08setml", SETML_SHIM + SETML_HARNESS.replace("TAIL", tail))
+    run.bound("K-C08-f", "the statements of set_mathml from parser::parse to the end (verbatim); parse and cleanup_mathml each succeed or fail arbitrarily; package identities symbolic")
+    run.assume("sxd_document::Package, parser::parse, get_element, cleanup_mathml, mml_to_string replaced by stand-ins with arbitrary outcomes; error text (bail!) not built")
+
+    def api_recover(vals, out):
+        res = mcprobe([("mathml", "<math><mi id='a'>x</mi><mo>+</mo><mi>y</mi></math>"), ("mathml", "<math><mfrac><mi>x</mi></mfrac></math>"), "speech", "navid", ("nav", "ZoomIn")])
+        bad = res[1][0] != "ERR" or res[2] != ("OK", "x plus y") or any(r[0] not in ("OK", "ERR") for r in res)
+        return bad, {"script": "set_mathml(valid); set_mathml(mfrac with one child) -> Err; get_spoken_text; get_navigation_mathml_id; ZoomIn", "results": res}
+    run.kani(crate5, [dict(id="K-C08-f.failed_set_mathml_keeps_old_expression", harness="failed_set_mathml_keeps_old_expression", api=api_recover,
+                           role=lambda v, o: "state-changed-on-error", covers=["canonicalization failure reachable", "success reachable"],
+                           claim="set_mathml returns Err => the installed expression is the one from before the call; Ok => the new one")], timeout=300)
+
+
+def _span(source, a, b, name):
+    return slicer.Span(source, a, b, name)
+
+
+SETML_SHIM = r'''
+use std::cell::RefCell;
+pub type Result<T> = core::result::Result<T, Error>;
+#[derive(Debug)] pub struct Error;
+impl Error { fn to_string(&self) -> String { String::new() } }
+macro_rules! bail { ($($t:tt)*) => { return Err(Error) }; }
+#[derive(Debug, PartialEq, Eq)] pub struct Package { pub id: u8, pub canonical: bool }
+#[derive(Clone, Copy)] pub struct Element { pub id: u8, pub ok: bool }
+pub mod parser { pub fn parse(_s: &str) -> core::result::Result<super::Package, super::Error> { if crate::sym::bool() { Ok(super::Package { id: 2, canonical: false }) } else { Err(super::Error) } } }
+fn get_element(p: &Package) -> Element { Element { id: p.id, ok: sym::bool() } }
+fn cleanup_mathml(e: Element) -> Result<Element> { if e.ok { Ok(e) } else { Err(Error) } }
+fn mml_to_string(_e: &Element) -> String { String::new() }
+'''
+
+SETML_HARNESS = r'''
+fn set_mathml_tail(old_package: &RefCell<Package>, mathml_str: &str) -> Result<String> {
+    TAIL
+}
+// K-C08-f
+HARNESS(failed_set_mathml_keeps_old_expression, 4) {
+    let old = RefCell::new(Package { id: 1, canonical: true });
+    let r = set_mathml_tail(&old, "");
+    let now = old.borrow().id;
+    cover!(r.is_err() && now == 1, "canonicalization failure reachable");
+    cover!(r.is_ok(), "success reachable");
+    match r {
+        Ok(s) => { assert!(now == 2, "set_mathml succeeded but the new expression is not installed"); core::mem::forget(s); }
+        Err(_) => assert!(now == 1, "set_mathml failed but replaced the previously set expression (later calls work on a non-canonical tree)"),
+    }
+}
+'''
